@@ -20,6 +20,7 @@
 
 #include "EbSvtAv1Dec.h"
 #include "EbDecHandle.h"
+#include "EbVerifHooks.h"
 
 #include "EbDecInverseQuantize.h"
 #include "EbDecProcessFrame.h"
@@ -113,15 +114,18 @@ EbErrorType decode_tile_row(DecModCtxt *dec_mod_ctxt, TilesInfo *tile_info,
         if (sb_row_in_tile) {
             while (*sb_completed_in_prev_row < MIN((sb_col + 2), tile_wd_in_sb))
                 ;
+            SVT_VERIF_HB_ACQUIRE(sb_completed_in_prev_row);
             //Sleep(5); /* ToDo : Change */
         }
 
         decode_super_block(dec_mod_ctxt, mi_row, mi_col, sb_info);
+        SVT_VERIF_HB_RELEASE(sb_completed_in_row);
         *sb_completed_in_row = (uint32_t)(sb_col + 1);
     }
 
     DecMtFrameData *mt_frame_data = &frame_buf->dec_mt_frame_data;
     int             index         = mi_row / dec_mod_ctxt->seq_header->sb_mi_size;
+    SVT_VERIF_HB_RELEASE(&mt_frame_data->sb_recon_row_map[(index * tile_info->tile_cols) + tile_col]);
     mt_frame_data->sb_recon_row_map[(index * tile_info->tile_cols) + tile_col] = 1;
     return status;
 }
@@ -155,6 +159,7 @@ EbErrorType decode_tile(DecModCtxt *dec_mod_ctxt, TilesInfo *tile_info,
                                                   ->sb_recon_row_parsed[sb_row_in_tile];
             while (0 == *sb_row_parsed)
                 ;
+            SVT_VERIF_HB_ACQUIRE(sb_row_parsed);
 
             int32_t sb_row = sb_row_in_tile + sb_row_tile_start;
 
@@ -164,6 +169,7 @@ EbErrorType decode_tile(DecModCtxt *dec_mod_ctxt, TilesInfo *tile_info,
             svt_cfl_init(&dec_mod_ctxt->cfl_ctx, color_config);
 
             //update the row started status
+            SVT_VERIF_HB_RELEASE(&parse_recon_tile_info_array->sb_recon_row_started[sb_row_in_tile]);
             parse_recon_tile_info_array->sb_recon_row_started[sb_row_in_tile] = 1;
 
             status = decode_tile_row(
